@@ -198,4 +198,48 @@ def keyInv (s : State) : Bool :=
     (!isActive x.phase ||
       x.byaddr.all fun b => !(s.stk.any fun v => v.id == b.1) || b.1 == b.2)
 
+
+/-! ### C19 -/
+
+/-- everything of a consumer record that a launch or a deletion may touch -/
+def sameRecord (a b : Consumer) : Bool :=
+  a.phase == b.phase && a.owner == b.owner && a.chain == b.chain && a.spawn == b.spawn && a.ps == b.ps &&
+  a.allow == b.allow && a.deny == b.deny && a.prio == b.prio && a.optin == b.optin && a.valset == b.valset &&
+  a.client == b.client && a.channel == b.channel && a.removal == b.removal && a.minpow == b.minpow &&
+  a.pend == b.pend && a.acks == b.acks && a.ka == b.ka && a.byaddr == b.byaddr && a.prune == b.prune &&
+  a.infr == b.infr && a.qinfr == b.qinfr && a.genesis == b.genesis && a.evmin == b.evmin &&
+  a.initH == b.initH && a.commission == b.commission
+
+/-- a launch attempted in this BeginBlock is all or nothing: the consumer is either launched with
+    client, genesis and validator set recorded, or exactly as before except registered with its
+    spawn time cleared (no client, genesis, validator set or Top-N threshold written) -/
+def launchAllOrNothing (before after : State) : Bool :=
+  after.consumers.all fun x =>
+    let b := before.get x.id
+    -- consumers that were scheduled and due
+    !(b.phase == .initialized && decide (b.spawn ≤ after.now) && countIn after.spawnQ x.id == 0) ||
+    (x.phase == .launched && x.client.isSome && x.genesis.isSome && !x.valset.isEmpty) ||
+    sameRecord x { b with phase := .registered, spawn := 0 }
+
+/-- a deletion attempted in this BeginBlock is all or nothing -/
+def deleteAllOrNothing (before after : State) : Bool :=
+  after.consumers.all fun x =>
+    let b := before.get x.id
+    b.phase != .stopped ||
+    (x.phase == .deleted && x.client.isNone && x.ka.isEmpty && x.valset.isEmpty && x.pend.isEmpty) ||
+    sameRecord x b
+
+/-- the light clients created in this block are exactly those of the consumers launched on a new
+    client: a client created for a launch that failed later is rolled back with it -/
+def clientsMatchLaunches (before after : State) : Bool :=
+  let launchedNew := after.consumers.filter fun x =>
+    x.phase == .launched && (before.get x.id).phase != .launched && x.conn == ""
+  after.nextClient == before.nextClient + launchedNew.length
+
+/-- a failing send stops the consumer instead of failing the block; nobody else is affected -/
+def sendFailureContained (before after : State) : Bool :=
+  after.consumers.all fun x =>
+    let b := before.get x.id
+    b.phase != .launched || x.phase == .launched || (x.phase == .stopped && x.removal.isSome)
+
 end ICS.Spec.Prov
